@@ -46,6 +46,7 @@ func guarded(deadline time.Duration, f func()) (kind, text string) {
 	case r := <-done:
 		return r[0], r[1]
 	case <-time.After(deadline):
+		leaked = true // the goroutine is still running: this process must not go on to further cases
 		return "hang", ""
 	}
 }
@@ -221,7 +222,7 @@ func roundTrip(w *ndWriter, sid *int, doc *sbom.Document, fname string, indent i
 	w.write(ev)
 	w.flush()
 	ev["op"] = "RT"
-	defer func() { w.write(ev); w.flush() }()
+	defer func() { w.write(ev); w.flush(); exitIfLeaked(w) }()
 	out, k, t := writeDoc(doc, trFormats[fname], indent)
 	ev["w1"] = outcome(k, t)
 	if k != "ok" {
@@ -264,13 +265,24 @@ func fixturePaths() []string {
 
 var skipCases int
 
+// leaked is set when a guarded call outlived its deadline; an isolated child then ends itself after logging
+// the case, and the parent restarts a fresh child for the remaining cases.
+var leaked bool
+
+func exitIfLeaked(w *ndWriter) {
+	if leaked {
+		w.flush()
+		os.Exit(3)
+	}
+}
+
 // capChildMemory bounds the address space of an isolated child so that a run-away allocation ends as an
 // observable "exit" of that child and not as memory pressure on the whole machine.
 func capChildMemory() {
 	if os.Getenv("VH_MEMLIMIT") == "" {
 		return
 	}
-	lim := &syscall.Rlimit{Cur: 8 << 30, Max: 8 << 30}
+	lim := &syscall.Rlimit{Cur: 6 << 30, Max: 6 << 30}
 	_ = syscall.Setrlimit(syscall.RLIMIT_AS, lim)
 }
 
@@ -304,12 +316,16 @@ func isolate(name string, args []string, out string) error {
 			<-done
 		}
 		var pending map[string]any
+		last := skip
 		readND(part, func(ev map[string]any) error {
 			if strings.HasSuffix(str(ev, "op"), "-begin") {
 				pending = ev
 				return nil
 			}
 			pending = nil
+			if n := integer(ev, "sid"); n > last {
+				last = n
+			}
 			final.write(ev)
 			return nil
 		})
@@ -318,7 +334,13 @@ func isolate(name string, args []string, out string) error {
 			return nil
 		}
 		if pending == nil {
-			return fmt.Errorf("child failed outside a case: %v", werr)
+			// the child ended between cases (deliberately after a hang, or killed by what a hung call left behind):
+			// continue after the last completed case, unless there was no progress at all
+			if last > skip {
+				skip = last
+				continue
+			}
+			return fmt.Errorf("child failed outside a case without progress: %v", werr)
 		}
 		pending["op"] = strings.TrimSuffix(str(pending, "op"), "-begin")
 		pending["w1"] = outcome("exit", werr.Error())   // RT events
@@ -370,6 +392,23 @@ func trRun(args []string) error {
 	indents := []int{0, 1, 4, 8}
 	switch *mode {
 	case "spdx":
+		// the enum tables the SPDX translators are built on, every value both ways
+		tab := map[string]any{"op": "TABLES", "sid": 0}
+		edges, hashes, idts := []any{}, []any{}, []any{}
+		for n := 0; n <= 46; n++ {
+			name := sbom.Edge_Type(n).ToSPDX2()
+			edges = append(edges, []any{n, name, int(sbom.EdgeTypeFromSPDX2(name)), int(sbom.EdgeTypeFromSPDX2(strings.ToLower(name)))})
+		}
+		for n := 0; n <= 19; n++ {
+			name := string(sbom.HashAlgorithm(n).ToSPDX())
+			hashes = append(hashes, []any{n, name, int(sbom.HashAlgorithmFromSPDX(sbom.HashAlgorithm(n).ToSPDX()))})
+		}
+		for n := 0; n <= 5; n++ {
+			t := sbom.SoftwareIdentifierType(n)
+			idts = append(idts, []any{n, t.ToSPDX2Type(), t.ToSPDX2Category(), int(sbom.SoftwareIdentifierTypeFromString(t.ToSPDX2Type()))})
+		}
+		tab["edges"], tab["hashes"], tab["idtypes"] = edges, hashes, idts
+		w.write(tab)
 		for i := 0; i < *n; i++ {
 			roundTrip(w, &sid, genSPDXDoc(r, i), "spdx23", indents[i%4], "spdx", "gen")
 		}
